@@ -17,6 +17,17 @@ pub mod c18;
 pub mod c20;
 
 pub fn run(shard: &Shard) -> i32 {
+    // replay of a case that is only known by its index in the campaign (hang verdicts)
+    let mut by_index = None;
+    if let Some(path) = &shard.replay {
+        if let Ok(j) = crate::util::J::parse(&std::fs::read_to_string(path).unwrap_or_default()) {
+            let cj = j.get("case").cloned().unwrap_or(j);
+            if cj.gets("kind") == Some("case_index") {
+                if let Some(i) = cj.geti("case_index") { by_index = Some(Shard { only_case: Some(i as u64), replay: None, seed: cj.geti("seed").unwrap_or(shard.seed as i64) as u64, ..shard.clone() }); }
+            }
+        }
+    }
+    let shard = by_index.as_ref().unwrap_or(shard);
     match shard.check.as_str() {
         "c01" => c01::run(shard),
         "c02" => solverprops::run_c02(shard),
